@@ -547,7 +547,11 @@ func build(c codecCase) (interface{}, string) {
 				v = obj{"application/json": v}
 			}
 		}
-		focus[m.Name] = v
+		name := m.Name
+		if c.Fam == "casefold" {
+			name = flipCase(name)
+		}
+		focus[name] = v
 	}
 	if !wild && !onlyRef {
 		focus = fill(focus, c.Kind)
